@@ -4,7 +4,7 @@
 (*   hist  sequence of user-level steps with the expected state (simulation mode)         *)
 EXTENDS Trie, Json, Randomization
 
-CONSTANTS Mode,        \* "mc" | "edges" | "sim"
+CONSTANTS Mode,        \* "mc" | "edges" | "edgesb" (batch edges over the pool keys only) | "sim"
           SeqBatches,  \* FALSE: leave out batches that take the sequential fallback (they are
                        \* compositions of Put/Del steps and add no new states, only cost)
           Depth,       \* sim: length of the emitted behaviours
@@ -38,10 +38,12 @@ MCBatchSet == UNION {[1..n -> BOps] : n \in BatchLens}
 SimBatchSet == UNION {RandomSubset(NBatch, [1..n -> AllOps]) : n \in BatchLens}
 
 (* concrete operation pools (cfg files cannot write records) *)
+(* four keys in three first-nibble groups *)
+PoolKeys == {<<0, 0>>, <<0, 1>>, <<1, 0>>, <<15, 1>>}
 OpsAll == [k : Keys, v : Vals \cup {0}]
 OpsIns == [k : Keys, v : Vals]
 (* four keys in three first-nibble groups, put and delete *)
-OpsPool == [k : {<<0, 0>>, <<0, 1>>, <<1, 0>>, <<15, 1>>}, v : Vals \cup {0}]
+OpsPool == [k : PoolKeys, v : Vals \cup {0}]
 
 (* ------------------------------- actions -------------------------------- *)
 (* sim: remember the raw successor, converted to its JSON view only when printed *)
@@ -51,7 +53,7 @@ HistJ  == [i \in 1..Len(hist) |-> [act |-> hist[i].act, exp |-> [kv |-> KVList(h
 
 MCInit == Init /\ act = [op |-> "init"] /\ hist = <<>> /\ cur = <<>>
 
-SimKeys == IF Mode = "sim" THEN RandomSubset(NKeys, Keys) ELSE Keys
+SimKeys == IF Mode = "sim" THEN RandomSubset(NKeys, Keys) ELSE IF Mode = "edgesb" THEN PoolKeys ELSE Keys
 
 MCNext ==
   \/ \E k \in SimKeys : \E v \in Vals :
@@ -76,7 +78,8 @@ View == <<kv, tree, pend, goal>>
 (* it starts, as one edge from the state it started in to the state the sequential        *)
 (* semantics prescribes (BatchInv/CanonInv establish that every interleaving ends there)   *)
 Edge ==
-  IF Mode # "edges" \/ act'.op = "worker" \/ (act'.op = "batch" /\ act'.par) THEN TRUE
+  IF Mode \notin {"edges", "edgesb"} \/ act'.op = "worker" \/ (act'.op = "batch" /\ act'.par) THEN TRUE
+  ELSE IF Mode = "edgesb" /\ act'.op \notin {"batch", "batchstart"} THEN TRUE
   ELSE IF act'.op = "batchstart"
        THEN PrintT(<<"EDGE", ToJson([from |-> KVList(kv), act |-> [op |-> "batch", ops |-> act'.ops, par |-> TRUE],
                                      to |-> [kv |-> KVList(goal'), tree |-> TreeJ(CanonKV(goal'))]])>>)
